@@ -114,7 +114,7 @@ func capCase(c *MergeCase) {
 			bb = 1
 		}
 		in = append(in, fmt.Sprint(bb))
-		out = append(out, fmt.Sprintf("%d/%d", remote.VerifReferrersState(repo), e))
+		out = append(out, fmt.Sprintf("%d/%d", remote.VerifReferrersStateC14(repo), e))
 	}
 	run.Count("K/caps")
 	run.Case(id, "K "+strings.Join(in, ""), "K "+strings.Join(out, ","))
